@@ -92,14 +92,14 @@ def check(ctx):
     lines = []
     # the domain TLC enumerated: every arena of 6 bytes over {0,'a','A',0xFF} ending in 0
     small = [list(x) + [0] for x in itertools.product([0, 97, 65, 255], repeat=5)]
-    per = 15000 if ctx.thorough else 600
+    per = 60000 if ctx.thorough else 600
     for fn in ALLFN:
         for _ in range(per):
             m = rng.choice(small)
             c = cases_for(rng, m, fn)
             if c: lines.append("Str %s %s %d %d %d %d" % (fn, fmt(m), c[0], c[1], c[2], rng.choice([0, 0, 1, 3])))
     # random arenas up to 80 bytes over all byte values, every alignment (the word-copy path of memcpy needs n >= 32)
-    per = 15000 if ctx.thorough else 600
+    per = 60000 if ctx.thorough else 600
     for fn in ALLFN:
         for _ in range(per):
             N = rng.choice([1, 2, 3, 8, 9, 16, 33, 40, 64, 80])
@@ -110,7 +110,7 @@ def check(ctx):
             if c: lines.append("Str %s %s %d %d %d %d" % (fn, fmt(m), c[0], c[1], c[2], rng.randrange(8)))
     # n-bounded functions on buffers of exactly n unterminated bytes that end with the arena (= the heap block): the definition
     # allows no read of s[n]
-    per = 8000 if ctx.thorough else 400
+    per = 40000 if ctx.thorough else 400
     for fn in ("strnlen", "strndup", "strncmp", "strncasecmp", "strncpy", "strncat", "memchr", "memrchr", "memcmp"):
         for _ in range(per):
             N = rng.choice([1, 2, 3, 4, 7, 8, 9, 16, 17, 33, 48])
